@@ -82,3 +82,31 @@ func slipAndDoubleSweep(r *rng, inputs []input, corpus []int, maxSlips int) []in
 	}
 	return out
 }
+
+// Stray tails (added after the fourth held-out wave, when a re-run showed that s36 - a pooled
+// lexer that keeps its "after a dot" flag - was only ever caught through corruptions the
+// seeded sampling happened to contain): a complete statement followed by one token that
+// cannot continue it, so that the parse stops in front of it.  n statements spread evenly
+// over the corpus, each with every tail.
+var strayTails = []string{".", " .", " ,", " )", " x.", " @p.", " ]"}
+
+func strayTailSweep(inputs []input, corpus []int, n int) []input {
+	var short []int
+	for _, ci := range corpus {
+		if t := strings.TrimSpace(inputs[ci].text); len(t) > 0 && len(t) <= 300 && !strings.HasSuffix(t, ";") {
+			short = append(short, ci)
+		}
+	}
+	if n > len(short) {
+		n = len(short)
+	}
+	var out []input
+	for k := 0; k < n; k++ {
+		src := inputs[short[k*len(short)/n]]
+		body := strings.TrimRight(src.text, " \t\r\n")
+		for _, tail := range strayTails {
+			out = append(out, input{text: body + tail, origin: "tail:" + src.origin, entry: src.entry, paths: src.paths, family: src.family, class: clsCorrupt})
+		}
+	}
+	return out
+}
